@@ -41,6 +41,10 @@ def main(tier, only=None):
     results = runner.run_items(MOD, tier)
     results, st = gridprop.split_selftest(results, ID)
     enga.init()
+    if not only:
+        from . import pinned_vjp
+
+        results += pinned_vjp.run(runner.SEED)
     from autograd.core import primitive_vjps
 
     return runner.finish(
@@ -60,3 +64,38 @@ def main(tier, only=None):
 
 def replay(path):
     return checks_a.replay_file(ID, path, items("thorough") + items("quick"))
+
+
+_grid_main_pp, _grid_replay_pp = main, replay
+
+
+def main(tier, only=None):
+    """the grid check, plus the float64 probe of isolated REGULAR points that generic-position reasoning never visits
+    (exact zeros, exponent 0): vf/props/pinned_probe.py"""
+    import os
+
+    if not os.environ.get("VF_EXTRA_RESULTS"):
+        os.environ["VF_EXTRA_RESULTS"] = "vf.props.pinned_vjp"
+    return _grid_main_pp(tier, only=only)
+
+
+def replay(path):
+    import json
+
+    with open(path) as f:
+        data = json.load(f)
+    cex = data.get("cex") or {}
+    if cex.get("mode") == "pinned":
+        from .. import enga
+        from . import pinned_probe
+
+        enga.init()
+        bad = [r for r in pinned_probe.run() if r["key"] == cex["key"] and r["status"] == "violation"]
+        for r in bad:
+            print("replay %s: %s" % (r["key"], r["detail"]))
+        if bad:
+            print("VIOLATION property=C01 replay=%s" % path)
+            return 1
+        print("does not reproduce on the current tree")
+        return 0
+    return _grid_replay_pp(path)
